@@ -15,6 +15,7 @@ import (
 	"testing"
 	"time"
 
+	"connectrpc.com/conformance/internal"
 	conformancev1 "connectrpc.com/conformance/internal/gen/proto/go/connectrpc/conformance/v1"
 	"connectrpc.com/conformance/internal/verifkit"
 	"google.golang.org/protobuf/proto"
@@ -158,6 +159,12 @@ func (f *vfFakeClient) sendRequest(req *conformancev1.ClientCompatRequest, whenD
 		deliver()
 	case "async":
 		go deliver()
+	case "late":
+		// the answer is still outstanding when the send loop has moved on (or has stopped)
+		go func() {
+			time.Sleep(25 * time.Millisecond)
+			deliver()
+		}()
 	default: // reverse: delivered after the last send of the batch (or when the fake is flushed)
 		f.mu.Lock()
 		f.pending = append(f.pending, deliver)
@@ -289,6 +296,21 @@ func vfC11Check(c vfC11Case) error {
 	case <-done:
 	case <-time.After(60 * time.Second):
 		return verifkit.Violf("batch-hang", "runTestCasesForServer did not return within 60s")
+	}
+	// when the batch function returns, every case already has its outcome (unless the server died: then the
+	// answers still outstanding are collected by the runner's later bookkeeping)
+	if c.ServerFault != "die" {
+		results.mu.Lock()
+		var missingAtReturn []string
+		for i := 0; i < c.N; i++ {
+			if _, ok := results.outcomes[vfC11Name(i)]; !ok {
+				missingAtReturn = append(missingAtReturn, vfC11Name(i))
+			}
+		}
+		results.mu.Unlock()
+		if len(missingAtReturn) > 0 {
+			return verifkit.Violf("outcome-missing-at-return", "the batch returned while %v had no outcome yet (server fault %s@%d, client fault %s@%d, delivery %s)", missingAtReturn, c.ServerFault, c.FaultAt, c.ClientFault, c.ClientAt, c.Delivery)
+		}
 	}
 	// a contract-respecting client eventually delivers every accepted request
 	client.flush()
@@ -450,7 +472,7 @@ func vfGenC11(t *rapid.T) vfC11Case {
 	c.FaultAt = rapid.IntRange(0, 40).Draw(t, "faultAt")
 	c.ClientFault = rapid.SampledFrom([]string{"none", "none", "send-error", "callback-error"}).Draw(t, "clientFault")
 	c.ClientAt = rapid.IntRange(0, 8).Draw(t, "clientAt")
-	c.Delivery = rapid.SampledFrom([]string{"sync", "async", "reverse"}).Draw(t, "delivery")
+	c.Delivery = rapid.SampledFrom([]string{"sync", "async", "reverse", "late"}).Draw(t, "delivery")
 	for i := 0; i < c.N; i++ {
 		switch rapid.IntRange(0, 5).Draw(t, "verdict") {
 		case 0:
@@ -549,6 +571,91 @@ func TestVerifC11NeverAnswers(t *testing.T) {
 			}
 			mu.Unlock()
 		}(n)
+	}
+	wg.Wait()
+	en.Done(true)
+}
+
+// TestVerifC11InProcess: the server runs in-process (as the reference servers do in client mode) through the real
+// runInProcess controller; after answering the start request it reacts to being stopped promptly, slowly, or not
+// at all. The batch must end in bounded time (the runner's graceful-shutdown period) with every case's own outcome.
+func TestVerifC11InProcess(t *testing.T) {
+	en := verifkit.NewEnum(t, "C11InProcess")
+	type variant struct {
+		Name  string
+		Delay time.Duration // how long after cancellation the server function returns (<0: never)
+	}
+	variants := []variant{{"stops-at-once", 0}, {"stops-after-1s", time.Second}, {"wedged", -1}}
+	var wg sync.WaitGroup
+	var mu sync.Mutex
+	for _, v := range variants {
+		for n := 1; n <= 3; n += 2 {
+			wg.Add(1)
+			go func(v variant, n int) {
+				defer wg.Done()
+				release := make(chan struct{})
+				defer close(release)
+				var testCases []*conformancev1.TestCase
+				expected := map[string]*conformancev1.ClientResponseResult{}
+				for i := 0; i < n; i++ {
+					exp := &conformancev1.ClientResponseResult{Payloads: []*conformancev1.ConformancePayload{{Data: []byte(fmt.Sprintf("payload-%d", i))}}}
+					testCases = append(testCases, &conformancev1.TestCase{Request: &conformancev1.ClientCompatRequest{TestName: vfC11Name(i)}, ExpectedResponse: exp})
+					expected[vfC11Name(i)] = exp
+				}
+				server := func(ctx context.Context, _ []string, in io.ReadCloser, out, _ io.WriteCloser) error {
+					req := &conformancev1.ServerCompatRequest{}
+					if err := internal.ReadDelimitedMessage(in, req, "runner", 10*time.Second, 1<<20); err != nil {
+						return err
+					}
+					if err := internal.WriteDelimitedMessage(out, &conformancev1.ServerCompatResponse{Host: "127.0.0.1", Port: 1}); err != nil {
+						return err
+					}
+					<-ctx.Done()
+					switch {
+					case v.Delay < 0:
+						select {
+						case <-release:
+						case <-time.After(30 * time.Second):
+						}
+					case v.Delay > 0:
+						time.Sleep(v.Delay)
+					}
+					return nil
+				}
+				results := newResults(n, &testTrie{}, &testTrie{}, nil)
+				client := &vfFakeClient{c: vfC11Case{N: n, Delivery: "sync"}, expected: expected}
+				start := time.Now()
+				done := make(chan struct{})
+				go func() {
+					defer close(done)
+					runTestCasesForServer(context.Background(), false, false, serverInstance{}, testCases, nil, nil, runInProcess([]string{"verif-server"}, server), &vfC11Printer{}, &vfC11Printer{}, results, client, nil, false)
+				}()
+				c := map[string]any{"batch": n, "server": v.Name}
+				var viol error
+				bound := 2*gracefulShutdownPeriod + 5*time.Second
+				select {
+				case <-done:
+				case <-time.After(bound):
+					viol = verifkit.Violf("in-process-server-hang", "batch of %d against an in-process server that %s did not end within %v", n, v.Name, bound)
+				}
+				if viol == nil {
+					results.mu.Lock()
+					for i := 0; i < n; i++ {
+						o, ok := results.outcomes[vfC11Name(i)]
+						if !ok || o.setupError || o.actualFailure != nil {
+							viol = verifkit.Violf("in-process-outcome", "case %d was answered correctly but: outcome present=%v setupError=%v failure=%v (server %s, took %v)", i, ok, o.setupError, o.actualFailure, v.Name, time.Since(start))
+						}
+					}
+					results.mu.Unlock()
+				}
+				mu.Lock()
+				en.Rec.Observe(c, []string{v.Name}, v.Delay != 0)
+				if viol != nil {
+					en.Fail(c, viol)
+				}
+				mu.Unlock()
+			}(v, n)
+		}
 	}
 	wg.Wait()
 	en.Done(true)
